@@ -34,6 +34,8 @@ def build_and_audit(ctx, prop, modules, theorems, gen_obs=False, extra_audit=())
     gen_mod = f"QV.Gen.{prop}_Ob"
     if gen_obs:
         targets.append(gen_mod)
+        if module_path(f"QV.Gen.{prop}_Sem").exists():
+            targets.append(f"QV.Gen.{prop}_Sem")
     ok, out = leanrun.lake_build(targets)
     fails = leanrun.failing_decls(out, targets) if not ok else []
     failed_names = {n for _, _, n in fails if n}
@@ -43,9 +45,11 @@ def build_and_audit(ctx, prop, modules, theorems, gen_obs=False, extra_audit=())
     names = list(theorems) + list(extra_audit)
     gen_names = []
     if gen_obs:
-        p = module_path(gen_mod)
+        for p in sorted((leanrun.LEAN_DIR / "QV" / "Gen").glob(f"{prop}_Ob[0-9]*.lean")):
+            gen_names += [f"QV.Gen.{prop}.{n}" for n in re.findall(r"^theorem\s+(\S+)", p.read_text(), re.M)]
+        p = module_path(f"QV.Gen.{prop}_Sem")
         if p.exists():
-            gen_names = [f"QV.Gen.{prop}.{n}" for n in re.findall(r"^theorem\s+(\S+)", p.read_text(), re.M)]
+            gen_names += [f"QV.Gen.{prop}.{n}" for n in re.findall(r"^theorem\s+(\S+)", p.read_text(), re.M)]
     imports = [m for m in targets]
     rc, axioms, aout = (0, {}, "")
     if ok:
@@ -84,3 +88,12 @@ def build_and_audit(ctx, prop, modules, theorems, gen_obs=False, extra_audit=())
         except (subprocess.TimeoutExpired, OSError) as e:
             ctx.ob(f"{prop}_leanchecker", False, "audit", str(e))
     return ok
+
+
+def registry(prop):
+    """(modules, theorems) expected for a property, from the committed registry."""
+    import json
+
+    data = json.loads((leanrun.VERIF / "tools" / "theorems.json").read_text())
+    d = data.get(prop, {"modules": [], "theorems": []})
+    return list(d["modules"]), list(d["theorems"])
